@@ -52,7 +52,7 @@ def run_trace(trace_path, props, workdir, timeout=1800, xmx="3g"):
     for p in TRACE_PROPS:
         env["P_" + p] = "1" if p in props else "0"
     md = os.path.join(workdir, "md-%d-%d" % (os.getpid(), int(time.time() * 1000) % 100000000))
-    cmd = tlc_cmd(["-workers", "1", "-metadir", md, "-cleanup", "-noGenerateSpecTE", "-config", "Trace.cfg", "Trace.tla"], xmx)
+    cmd = tlc_cmd(["-workers", "1", "-metadir", md, "-cleanup", "-noGenerateSpecTE", "-config", "Trace.cfg", "Trace.tla"], xmx, serial=True)
     t0 = time.time()
     try:
         r = subprocess.run(cmd, cwd=SPEC, env=tlc_env(env), stdout=subprocess.PIPE, stderr=subprocess.STDOUT,
@@ -77,7 +77,7 @@ def run_trace(trace_path, props, workdir, timeout=1800, xmx="3g"):
     return mism, summary, {"wall_s": time.time() - t0}
 
 _TLC = None
-def tlc_cmd(args, xmx="3g"):
+def tlc_cmd(args, xmx="3g", serial=False):
     """java command line equivalent to the `tlc` wrapper on PATH (same jar/classpath), with -Xmx"""
     global _TLC
     if _TLC is None:
@@ -85,7 +85,8 @@ def tlc_cmd(args, xmx="3g"):
         txt = open(w).read() if w else ""
         m = re.search(r'-cp\s+(\S+)', txt)
         _TLC = m.group(1) if m else "/opt/veriftools/tla/tla2tools.jar"
-    return ["java", "-Xmx" + xmx, "-XX:+UseParallelGC", "-cp", _TLC, "tlc2.TLC"] + args
+    gc = ["-XX:+UseSerialGC"] if serial else ["-XX:+UseParallelGC", "-XX:ParallelGCThreads=4"]
+    return ["java", "-Xmx" + xmx] + gc + ["-cp", _TLC, "tlc2.TLC"] + args
 
 # ---------------------------------------------------------------------------------------
 KNOWN = os.path.join(VERIF, "known_findings.json")
@@ -132,8 +133,9 @@ class Run:
         with open(cfg, "w") as f:
             f.write("SPECIFICATION Spec\nCONSTANTS\n")
             if module == "MC":
-                f.write("  Model = \"%s\"\n  Geoms <- %s\n  TextLen = %d\n" %
-                        (job["model"], job["geoms"][tier], job.get("textlen", {}).get(tier, 2)))
+                f.write("  Model = \"%s\"\n  Geoms <- %s\n  TextLen = %d\n  SgrMax = %d\n  ModeMax = %d\n" %
+                        (job["model"], job["geoms"][tier], job.get("textlen", {}).get(tier, 2),
+                         job.get("sgrmax", {}).get(tier, 110), job.get("modemax", {}).get(tier, 40)))
             f.write("  EmitVectors = %s\n" % ("TRUE" if job.get("emit", True) else "FALSE"))
             for k, v in job.get("constants", {}).items():
                 val = v[tier] if isinstance(v, dict) else v
@@ -341,14 +343,45 @@ class Run:
                 break
         return trace, crashes
 
+    def split_trace(self, trace, limit=24_000_000):
+        """parts of a trace file, each below `limit` bytes, cut only between histories of different comparison groups
+        (TLC holds the whole deserialised trace in memory; a part is what one JVM validates)"""
+        if os.path.getsize(trace) <= limit:
+            return [(trace, 0)]
+        parts, cur, size, n, prev_sid = [], None, 0, 0, None
+        with open(trace) as f:
+            for line in f:
+                if line.startswith('{"k":"begin"'):
+                    m = re.search(r'"sid":"([^"]*)"', line)
+                    sid = m.group(1) if m else ""
+                    if cur is None or (size > limit and (sid == "" or sid != prev_sid)):
+                        if cur: cur.close()
+                        path = "%s.p%d" % (trace, len(parts))
+                        parts.append((path, n))
+                        cur, size = open(path, "w"), 0
+                    prev_sid = sid
+                if cur is None:
+                    path = "%s.p%d" % (trace, len(parts))
+                    parts.append((path, n))
+                    cur = open(path, "w")
+                cur.write(line); size += len(line); n += 1
+        if cur: cur.close()
+        return parts
+
     def validate_shard(self, k, trace):
         if os.path.getsize(trace) < 5:
             return [], {}, 0.0
-        mism, summary, st = run_trace(trace, self.plan["props"], self.wd, timeout=self.plan.get("tv_timeout", 3000),
-                                      xmx=self.plan.get("tv_xmx", "3g"))
-        for m in mism:
-            m["shard"] = k
-        return mism, summary, st["wall_s"]
+        allm, alls, wall = [], collections.Counter(), 0.0
+        for path, offset in self.split_trace(trace):
+            mism, summary, st = run_trace(path, self.plan["props"], self.wd, timeout=self.plan.get("tv_timeout", 3000),
+                                          xmx=self.plan.get("tv_xmx", "3g"))
+            for m in mism:
+                m["shard"] = k
+                m["line"] += offset
+            allm.extend(mism); alls.update(summary); wall += st["wall_s"]
+            if path != trace:
+                os.remove(path)
+        return allm, alls, wall
 
     def count_distinct(self, trace):
         ops = set(self.plan.get("ops", []))
